@@ -8,7 +8,7 @@ REGISTRY = {
     "C11": ("c11_counters", "plain"),
     "C13": ("c13_encodings", "plain"),
     "C15": ("c15_hpke", "plain"),
-    "C16": ("c16_replicas", "plain"),
+    "C16": ("c16_replicas", "plain", ["noaccel"]),
     "C17": ("c17_memory", "asan"),
     "C18": ("c18_entropy", "plain"),
     "C19": ("c19_threads", "inst"),
@@ -18,6 +18,6 @@ REGISTRY = {
 
 def load(prop):
     import importlib
-    mod, variant = REGISTRY[prop]
+    mod = REGISTRY[prop][0]
     m = importlib.import_module("vsim.props." + mod)
     return m.Machine()
